@@ -76,13 +76,16 @@ def run(ck):
         # odd fits keep the LAST iterate (learned, non-identity feature matrix guaranteed); even fits return the best one
         params = xr.default_rfm_params(kernel=kern, iters=1 + (i % 2), diag=diag, bandwidth=3.0, exponent=exponent,
                                        bandwidth_mode=bwmode, reg=1e-2, return_best=(i % 2 == 0), **extra)
+        if i % 8 == 6:
+            params = None              # the library's default leaf model (what `xRFM()` without arguments uses): l2_high_dim, 5 rounds, best iterate
+            kern = 'l2_high_dim'
         xr.seed_all(1000 + i + ck.seed)
         model = xr.xRFM(rfm_params=params, max_leaf_size=L, n_trees=n_trees, overlap_fraction=f, verbose=False,
                         split_method=('random_global_agop' if i % 8 == 5 else ['top_vector_agop_on_subset', 'random_pca', 'linear', 'pca'][i % 4]),
                         use_temperature_tuning=False, classification_mode=cmode, refill_size=20,
                         n_tree_iters=(1 if i % 8 == 5 else 0))
         desc = dict(i=i, kernel=kern, task=task, cmode=cmode, n_trees=n_trees, n=n, L=L, d=d, f=f, diag=diag, bw=bwmode,
-                    exponent=exponent, seed=ck.seed)
+                    exponent=exponent, default_params=(params is None), seed=ck.seed)
         try:
             with xr.quiet():
                 model.fit(torch.tensor(X), torch.tensor(y), torch.tensor(Xv), torch.tensor(yv))
